@@ -14,7 +14,21 @@ reg('C15', engine='h_informed',
          'd(1+1e-9), every third call lower-bounded, or (c) 60 000 samples at a fixed bound compared cell by cell with 240 000 '
          'samples of an independent generator; non-trivial = at least one successful sample / one hyperspheroid was checked; '
          'distinct = distinct (kind, space, dimension, starts, goals, regime, bounds) hash',
-    floors={'quick': {}, 'thorough': {}},
+    floors={'quick': {'c15_mechanism_cases': 1000, 'c15_affine_checks': 15000, 'c15_surface_checks': 80000,
+                      'c15_determinant_checks': 1500, 'c15_measure_checks': 1500, 'c15_mechanism_thin': 300,
+                      'c15_mechanism_tiny_separation': 150, 'c15_mechanism_axis_aligned': 200,
+                      'c15_samples_direct': 300000, 'c15_samples_rejection': 25000, 'c15_samples_lower_bounded': 80000,
+                      'c15_samples_se': 100000, 'c15_samples_thin_bound': 70000, 'c15_multi_focus_cases': 600,
+                      'c15_informed_measure_checks': 10000, 'c15_informed_measure_uncapped': 5000,
+                      'c15_uniformity_cases': 300, 'c15_uniformity_multi_phs_cases': 100, 'c15_uniformity_overlap_cases': 100,
+                      'c15_uniformity_se_cases': 80, 'c15_uniformity_lower_bounded_cases': 60,
+                      'c15_uniformity_box_mode_cases': 60, 'c15_uniformity_cells_tested': 7000,
+                      'c15_uniformity_library_samples': 20000000},
+            'thorough': {'c15_mechanism_cases': 6000, 'c15_surface_checks': 500000, 'c15_samples_direct': 2000000,
+                         'c15_samples_rejection': 150000, 'c15_samples_lower_bounded': 500000, 'c15_samples_se': 600000,
+                         'c15_samples_thin_bound': 400000, 'c15_informed_measure_checks': 60000,
+                         'c15_uniformity_cases': 2000, 'c15_uniformity_overlap_cases': 600, 'c15_uniformity_se_cases': 500,
+                         'c15_uniformity_cells_tested': 45000, 'c15_uniformity_library_samples': 200000000}},
     level_text='every successful informed sample observed is in bounds, has the sampler\'s own heuristic cost below the bound (and not '
                'below the lower bound) and that heuristic equals the focal-sum recomputed by the harness; the hyperspheroid map is '
                'affine with the analytic determinant, surface and measure in every generated configuration; sampled densities agree '
@@ -33,7 +47,25 @@ reg('C16', engine='h_constraint',
          '60 sampler triples, 10 near + 4 far + across-obstacle pairs (interpolate on a t grid, discreteGeodesic in both modes), one '
          'planner run under an evaluation-counting termination condition; non-trivial = a successful geodesic or a solution path with '
          '>= 3 states was examined; distinct = (manifold, space, planner, delta/lambda/tolerance bucket) hash',
-    floors={'quick': {}, 'thorough': {}},
+    floors={'quick': {'c16_uniform_samples': 100000, 'c16_near_samples': 100000, 'c16_gaussian_samples': 100000,
+                      'c16_interpolated_states': 150000, 'c16_geodesics_ok': 30000, 'c16_geodesic_states': 400000,
+                      'c16_pairs_across_obstacle': 2000, 'c16_pairs_far': 5000, 'c16_pairs_near': 15000,
+                      'c16_paths_checked': 1500, 'c16_path_vertices': 15000,
+                      'c16_paths_RRT': 250, 'c16_paths_RRTConnect': 250, 'c16_paths_PRM': 250, 'c16_paths_KPIECE1': 250,
+                      'c16_paths_BITstar': 250,
+                      'c16_cases_ProjectedStateSpace': 500, 'c16_cases_AtlasStateSpace': 500,
+                      'c16_cases_TangentBundleStateSpace': 500,
+                      'c16_cases_manifold_sphere': 100, 'c16_cases_manifold_ellipsoid': 100, 'c16_cases_manifold_torus': 100,
+                      'c16_cases_manifold_plane-axis-aligned': 100, 'c16_cases_manifold_plane-tilted': 100,
+                      'c16_cases_manifold_two-planes-axis-aligned': 100, 'c16_cases_manifold_two-planes-tilted': 100,
+                      'c16_cases_manifold_sphere-cap-plane': 100, 'c16_cases_manifold_S2xS1': 100},
+            'thorough': {'c16_uniform_samples': 800000, 'c16_near_samples': 800000, 'c16_gaussian_samples': 800000,
+                         'c16_interpolated_states': 1000000, 'c16_geodesics_ok': 200000, 'c16_geodesic_states': 2500000,
+                         'c16_paths_checked': 5000, 'c16_path_vertices': 50000,
+                         'c16_paths_RRT': 800, 'c16_paths_RRTConnect': 800, 'c16_paths_PRM': 800, 'c16_paths_KPIECE1': 800,
+                         'c16_paths_BITstar': 800,
+                         'c16_cases_ProjectedStateSpace': 1800, 'c16_cases_AtlasStateSpace': 1800,
+                         'c16_cases_TangentBundleStateSpace': 1800}},
     level_text='the constraint norm of every sampler, interpolate, successful-geodesic (Projected, Atlas) and solution-path state that '
                'was produced is within the tolerance; successful geodesics keep steps <= lambda*delta and end within delta of the '
                'target, measured with the space\'s own distance',
